@@ -11,6 +11,7 @@
 -/
 import PvModel.Props.C02
 import PvModel.Proofs.Stream
+import PvModel.Proofs.FDExact
 namespace Pv
 open Strm Goal
 
@@ -65,6 +66,19 @@ theorem C04_tree (o1 o2 : Order) (h1 : OrderOK o1) (h2 : OrderOK o2) (n : Nat)
         ∀ γ : Subst, ¬ StateSem γ s1) ∧
     (postAll o1 (State.empty n) as = .fail → ∀ s2, postAll o2 (State.empty n) bs = .ok s2 →
         ∀ γ : Subst, ¬ StateSem γ s2) := C02_order_free o1 o2 h1 h2 n as bs hp
+
+/-! ### conjunctions with finite-domain and CLP(Z) conjuncts -/
+
+/-- COMMUTATIVITY OF CONJUNCTION for constraint atoms (FD, CLP(Z), `==`, `!=`): every permutation of the
+    conjuncts, under any hash-iteration orders, reaches a state describing the SAME valuations; and if one
+    order fails, the other describes no valuation (so neither has an answer). -/
+theorem C04_fd_conj_comm {ord ord' : Order} (ho : OrderOK ord) (ho' : OrderOK ord') (n : Nat)
+    (as as' : List FAtom) (hp : as.Perm as') (hok : ∀ a ∈ as, a.OK) :
+    (∀ st1 st2, postAllF ord (State.empty n) as = .ok st1 → postAllF ord' (State.empty n) as' = .ok st2 →
+      ∀ γ, Sem NoI γ st1 ↔ Sem NoI γ st2) ∧
+    (∀ st1, postAllF ord (State.empty n) as = .ok st1 → postAllF ord' (State.empty n) as' = .fail →
+      ∀ γ, ¬ Sem NoI γ st1) := fd_order_free ho ho' n as as' hp hok
+
 
 section Examples
 private def defs0 : Unit → Nat → Nat × Goal Nat Unit := fun _ a => (a, .fail)
